@@ -43,6 +43,8 @@ class _ObsWorker:
 
 
 def impl(case) -> str:
+    if case.get("kind") == "pool":
+        return pool_impl(case)
     from twisted._threads import AlreadyQuit, createMemoryWorker
     from twisted._threads._team import Team
 
@@ -173,6 +175,8 @@ def expanded(case):
 
 
 def oracle(case, obs):
+    if case.get("kind") == "pool":
+        return pool_oracle(case, obs)
     labels = expanded(case)
     steps = obs.split(" ") if obs else []
     if len(steps) != len(labels):
@@ -274,6 +278,159 @@ def oracle(case, obs):
     return None
 
 
+
+# --------------------------------------------------------------------------------------------------
+# the real ThreadPool (OS threads): oracle-only cases {"kind": "pool", ...}; not modelled in Coq
+#
+# case = {"kind": "pool", "min": m, "max": M, "pre": k (tasks submitted before start()), "adjust": [m2, M2] | None,
+#         "tasks": [[how, cb], ...]}   how in POOL_KINDS; cb: 1 = callInThreadWithCallback, 0 = callInThread
+
+POOL_KINDS = ["ret", "exc", "sysexit", "genexit", "base", "slow"]
+
+
+class _Cancelled(BaseException):
+    """a BaseException that is not an Exception (cancellation-style)"""
+
+
+_QUIET = []
+
+
+def _quiet_logging():
+    """failures of callback-less tasks are reported through log.err; keep them off this process's stderr"""
+    if not _QUIET:
+        from twisted.logger import globalLogBeginner
+        globalLogBeginner.beginLoggingTo([lambda event: None], redirectStandardIO=False, discardBuffer=True)
+        _QUIET.append(1)
+
+
+def pool_impl(case) -> str:
+    import threading
+    import time as _time
+
+    from twisted.python import threadpool
+
+    _quiet_logging()
+    name = "verif-c49-pool"
+    tp = threadpool.ThreadPool(case["min"], case["max"], name=name)
+    lock = threading.Lock()
+    calls = {}            # task index -> list of (ok, type name / value)
+    ran = {}
+    conc = [0, 0]         # current, max
+
+    def mk(i, how):
+        def f():
+            with lock:
+                ran[i] = ran.get(i, 0) + 1
+                conc[0] += 1
+                conc[1] = max(conc[1], conc[0])
+            try:
+                if how == "slow":
+                    _time.sleep(0.003)
+                    return ("v", i)
+                if how == "ret":
+                    return ("v", i)
+                if how == "exc":
+                    raise ValueError(i)
+                if how == "sysexit":
+                    raise SystemExit(3)
+                if how == "genexit":
+                    raise GeneratorExit()
+                raise _Cancelled()
+            finally:
+                with lock:
+                    conc[0] -= 1
+        return f
+
+    def cb(i):
+        def on(ok, res):
+            with lock:
+                calls.setdefault(i, []).append((ok, "v" if ok and res == ("v", i) else
+                                                "?" if ok else res.type.__name__))
+        return on
+
+    tasks = case["tasks"]
+    started = False
+    try:
+        for i, (how, c) in enumerate(tasks):
+            if i == case["pre"]:
+                tp.start()
+                started = True
+            if case["adjust"] and i == len(tasks) // 2 and started:
+                tp.adjustPoolsize(*case["adjust"])
+            if c:
+                tp.callInThreadWithCallback(cb(i), mk(i, how))
+            else:
+                tp.callInThread(mk(i, how))
+        if not started:
+            tp.start()
+        tp.stop()
+    finally:
+        if not tp.joined:
+            try:
+                tp.stop()
+            except Exception:
+                pass
+    alive = [th for th in tp.threads if th.is_alive()]
+    stray = [th for th in threading.enumerate() if th.name.startswith("PoolThread-" + name) and th.is_alive()]
+    limit = max(case["max"], (case["adjust"] or [0, 0])[1])
+    out = []
+    for i, (how, c) in enumerate(tasks):
+        got = calls.get(i, [])
+        out.append(f"{i}{how}:r{ran.get(i, 0)}:c{len(got)}" + "".join(f":{'T' if ok else 'F'}{ty}" for ok, ty in got))
+    return " ".join(out) + f" |alive={len(alive)} stray={len(stray)} conc_ok={'T' if conc[1] <= limit else 'F' + str(conc[1])}"
+
+
+_POOL_EXC = {"exc": "ValueError", "sysexit": "SystemExit", "genexit": "GeneratorExit", "base": "_Cancelled"}
+
+
+def pool_oracle(case, obs):
+    head, tail = obs.split(" |")
+    toks = head.split(" ") if head else []
+    if len(toks) != len(case["tasks"]):
+        return Failure(case, "malformed observation", "trace")
+    for (how, c), tok in zip(case["tasks"], toks):
+        parts = tok.split(":")
+        nran, ncall, outs = int(parts[1][1:]), int(parts[2][1:]), parts[3:]
+        if nran != 1:
+            return Failure(case, f"task {tok}: ran {nran} times (submitted before stop())", "pool-task-not-once")
+        if c and ncall != 1:
+            return Failure(case, f"task {tok}: onResult called {ncall} times for a task that "
+                           + ("returns" if how in ("ret", "slow") else f"raises {_POOL_EXC[how]}"),
+                           "pool-onresult-not-once:" + how)
+        if not c and ncall != 0:
+            return Failure(case, f"task {tok}: callback invoked for callInThread", "pool-callback-invented")
+        if c:
+            want = "Tv" if how in ("ret", "slow") else "F" + _POOL_EXC[how]
+            if outs != [want]:
+                return Failure(case, f"task {tok}: outcome {outs}, expected {want}", "pool-wrong-outcome:" + how)
+    if "alive=0 stray=0" not in tail:
+        return Failure(case, "stop() returned while pool threads are still alive: " + tail, "pool-stop-not-joined")
+    if "conc_ok=T" not in tail:
+        return Failure(case, "more tasks ran at once than the pool's maximum: " + tail, "pool-over-limit")
+    return None
+
+
+def pool_gen(rng, tier):
+    cases = []
+    # every kind of outcome on its own and in pairs, with and without callback
+    for how in POOL_KINDS:
+        for c in (0, 1):
+            cases.append({"kind": "pool", "min": 0, "max": 2, "pre": 0, "adjust": None, "tasks": [[how, c]]})
+            cases.append({"kind": "pool", "min": 1, "max": 1, "pre": 1, "adjust": None,
+                          "tasks": [[how, c], ["ret", 1], [how, 1]]})
+    for _ in range(60 if tier == "quick" else 1500):
+        mx = rng.randrange(1, 5)
+        mn = rng.randrange(0, mx + 1)
+        n = rng.randrange(1, 14)
+        adj = None
+        if rng.random() < 0.4:
+            a = rng.randrange(1, 5)
+            adj = [rng.randrange(0, a + 1), a]
+        cases.append({"kind": "pool", "min": mn, "max": mx, "pre": rng.choice([0, 0, 0, rng.randrange(0, n + 1)]),
+                      "adjust": adj,
+                      "tasks": [[rng.choice(POOL_KINDS), int(rng.random() < 0.75)] for _ in range(n)]})
+    return cases
+
 # --------------------------------------------------------------------------------------------------
 # cases
 
@@ -327,11 +484,19 @@ def gen(rng, tier):
         if rng.random() < 0.8:
             ops.append(["drain"])
         cases.append({"limit": lim, "ops": ops})
-    return cases
+    return cases + pool_gen(rng, tier)
 
 
 def corpus():
     return [
+        # all workers busy, one task backlogged, shrink covering every worker, workers finish, quit
+        {"limit": 1, "ops": [["do", 0, 0], ["do", 1, 0], ["coord"], ["coord"], ["shrink", 1], ["coord"], ["work", 0],
+                             ["drain"], ["quit"], ["drain"]]},
+        {"limit": 2, "ops": [["do", 0, 0], ["do", 1, 1], ["do", 2, 0], ["drain"], ["shrink", None], ["do", 3, 0], ["do", 4, 0],
+                             ["do", 5, 0], ["coord"], ["coord"], ["coord"], ["coord"], ["shrink", 2], ["drain"], ["quit"],
+                             ["drain"]]},
+        {"kind": "pool", "min": 0, "max": 2, "pre": 0, "adjust": None,
+         "tasks": [["sysexit", 1], ["genexit", 1], ["base", 1], ["exc", 1], ["ret", 1], ["base", 0]]},
         {"limit": 2, "ops": [["do", 0, 0], ["do", 1, 1], ["do", 2, 0], ["coord"], ["coord"], ["coord"], ["work", 0],
                              ["quit"], ["drain"]]},
         {"limit": 0, "ops": [["do", 0, 0], ["coord"], ["quit"], ["drain"]]},
@@ -361,6 +526,8 @@ def to_coq(case):
             return f"Coord {coq_list(map(nat, o[1]), 'nat')}"
         return f"Work {nat(o[1])}"
 
+    if case.get("kind") == "pool":
+        return None
     labels = expanded(case)
     if len(labels) > 400:
         return None
@@ -368,6 +535,11 @@ def to_coq(case):
 
 
 def shrink(case):
+    if case.get("kind") == "pool":
+        ts = case["tasks"]
+        for i in range(len(ts)):
+            yield {**case, "tasks": ts[:i] + ts[i + 1:], "pre": min(case["pre"], len(ts) - 1)}
+        return
     ops = case["ops"]
     for i in range(len(ops)):
         yield {**case, "ops": ops[:i] + ops[i + 1:]}
@@ -379,8 +551,9 @@ SPEC = Spec(
     coq_header="From C49 Require Import Model Run.",
     coq_fn="run_show",
     to_coq=to_coq,
-    nontrivial=lambda c, o: ":" in o and "q" in o,
-    histogram=lambda c, o: f"limit={c['limit']} quit={'y' if ['quit'] in c['ops'] else 'n'}",
+    nontrivial=lambda c, o: ":" in o and ("q" in o or c.get("kind") == "pool"),
+    histogram=lambda c, o: ("real ThreadPool" if c.get("kind") == "pool" else
+                            f"limit={c['limit']} quit={'y' if ['quit'] in c['ops'] else 'n'}"),
     rule="every word up to length 3 (quick; thorough 4; longer ones up to 6 / 7 sampled) over {do, coordinator step, worker 0/1 "
          "step, quit, shrink(1), grow(1)} for limit in {0,1,2}, each followed by a drain to quiescence; random "
          "schedules of 4-40 ops with tasks that raise, grow/shrink(n|None), limit changes, quit and drains; "
